@@ -139,14 +139,24 @@ pub fn generate(seed: u64, tier: &str, sink: &mut Sink) {
         head.extend_from_slice(b"\r\n");
         let mut wire = head.clone();
         wire.extend_from_slice(&body);
-        let (segs, segname) = segment(&mut rng, &wire, &interesting_offsets(&wire, head.len()));
-        let reads = if rng.chance(1, 3) {
+        let (mut segs, segname) = segment(&mut rng, &wire, &interesting_offsets(&wire, head.len()));
+        // a transient transport error (a read timeout, a reset that the caller retries) right behind the head or
+        // somewhere in the body of an undamaged response; the caller goes on reading: whatever is handed out
+        // must still be decoded payload, never the raw coded bytes
+        let transient = damage == "none" && method != "HEAD" && !wire_body.is_empty() && rng.chance(1, 5);
+        if transient {
+            let p = if rng.chance(1, 2) { head.len() } else { head.len() + rng.below(body.len() as u64) as usize };
+            segs = crate::p_c02::splice(&segs, p, Some(crate::script::Seg::Err(*rng.pick(&[1u8, 2, 2, 3]))), false);
+        }
+        let reads = if rng.chance(1, 3) && !transient {
             Reads::Drain(8192)
         } else {
             let s = *rng.pick(&[1usize, 7, 100, 8192, 65536, 1 << 20]);
             // every read may consume as little as one segment
             let k = if s < 100 { data.len() / s + segs.len() + 3 } else { data.len() / s + segs.len() + wire.len() / 64 + 8 };
-            if k > 6000 {
+            if k > 6000 && transient {
+                Reads::Sizes(vec![1 << 16; 40])
+            } else if k > 6000 {
                 Reads::Drain(8192)
             } else {
                 Reads::Sizes(vec![s; k])
@@ -171,6 +181,23 @@ pub fn generate(seed: u64, tier: &str, sink: &mut Sink) {
             if method == "HEAD" {
                 return Ok(());
             }
+            if transient {
+                // every Ok event, before and after the error: a prefix of the decoded payload
+                let mut got: Vec<u8> = vec![];
+                for (i, ev) in out.events.iter().enumerate() {
+                    match ev {
+                        Ev::Panic => return Err((format!("panic-{}", tag), format!("event #{} panicked", i))),
+                        Ev::Ok(bs) => {
+                            got.extend_from_slice(bs);
+                            if !data.starts_with(&got) {
+                                return Err((format!("not-decoded-after-transient-error-{}", declared), format!("after a transient transport error the bytes handed out ({} B by event #{}) are not a prefix of the decoded payload ({} B)", got.len(), i, data.len())));
+                            }
+                        }
+                        _ => {}
+                    }
+                }
+                return Ok(());
+            }
             let exp = if damage == "none" { Decoded { payload: data.clone(), end: End::Complete(0) } } else { Decoded { payload: data.clone(), end: End::Truncated } };
             // C06 constrains the stream up to and including the first error; what a decoder answers
             // to reads issued after it has reported the damage is not part of the statement
@@ -193,7 +220,7 @@ pub fn generate(seed: u64, tier: &str, sink: &mut Sink) {
             Ok(())
         })();
         sink.push(Case {
-            tags: vec![format!("coding={}", coding), format!("damage={}", damage), format!("level={}", level), format!("payload={}", pname), format!("framing={}", ["chunked", "length", "close"][framing as usize]), format!("seg={}", segname), format!("method={}", method)],
+            tags: vec![format!("coding={}", coding), format!("damage={}", damage), format!("level={}", level), format!("payload={}", pname), format!("framing={}", ["chunked", "length", "close"][framing as usize]), format!("seg={}", segname), format!("method={}", method), format!("transient-error={}", transient)],
             op: case.op_line(),
             impl_line: out.line(),
             oracle: o,
